@@ -105,6 +105,10 @@ class Machine:
     def jump_edge(self, st, pos, tgt, edge):
         if tgt is None:
             return
+        for c in reversed(st.code):
+            if c['pos'] == pos and c['kind'] == 'op':
+                c['target'] = ('pos', tgt[1]) if tgt[0] == 'pos' else (tgt[0],)
+                break
         if tgt[0] == 'placeholder':
             st.pending[pos] = edge
         elif tgt[0] == 'pos':
@@ -166,6 +170,7 @@ class Machine:
         self.finalize(st)
         st.last_emit = {'pos': st.pos, 'op': op, 'h': st.h, 'reach': st.reach, 'last': st.last, 'frame': st.frame}
         st.cur = {'op': op, 'operands': [], 'pos': st.pos}
+        st.code.append({'kind': 'op', 'op': op, 'pos': st.pos, 'target': None, 'frame': st.frame})
         st.instr_at[st.pos] = op
         st.pos = st.next_pos
         st.next_pos += 1
@@ -219,6 +224,14 @@ class Machine:
             st.viol('O7', 'change_jump_operand_at called with %s, not a captured code position' % show_av(label_av))
             return
         edge = st.pending.pop(label_av[1], None)
+        if edge is not None and target_av and target_av[0] == 'pos':
+            for c in reversed(st.code):
+                if c['kind'] == 'op' and c['pos'] == label_av[1]:
+                    c['target'] = ('pos', target_av[1])
+                    break
+                if c['kind'] == 'blob' and label_av[1] in c.get('breaks', ()):
+                    c.setdefault('break_targets', []).append(('pos', target_av[1]))
+                    break
         if edge is None:
             op = st.instr_at.get(label_av[1])
             st.viol('O7', 'change_jump_operand_at patches a position that holds %s, not a jump emitted with a placeholder' % (op or 'no instruction'))
@@ -250,6 +263,10 @@ class Machine:
         if st.bound or st.pos in st.labels:
             st.viol('O4', 'the position after the removed OpCode::%s is a jump target / captured label' % st.last)
         st.instr_at.pop(le['pos'], None)
+        if st.code and st.code[-1]['kind'] == 'op' and st.code[-1]['op'] == st.last:
+            st.code.pop()
+        elif st.code and st.code[-1]['kind'] == 'blob':
+            st.code[-1]['last_removed'] = st.last
         st.pos = le['pos']
         st.h = le['h']
         st.reach = le['reach']
